@@ -36,8 +36,12 @@ Write(batch) ==
 \* buffering of its own - a signal writes nothing, and every later batch is still written at once and in order.
 FlowSignal == UNCHANGED vars
 
+\* A batch the library refuses as a whole (an element that is no protocol message): nothing of it is written
+\* and no nonce is consumed - the batches that follow stay consecutive.
+RejectedBatch == UNCHANGED vars
+
 Batches == UNION {[1..k -> Packets] : k \in 1..MaxBatch}
-Next == (Len(wire) < MaxWrites /\ \E b \in Batches : Write(b)) \/ FlowSignal
+Next == (Len(wire) < MaxWrites /\ \E b \in Batches : Write(b)) \/ FlowSignal \/ RejectedBatch
 Spec == Init /\ [][Next]_vars
 
 \* nonces over the whole session are 0, 1, 2, ... without gap or repetition
